@@ -132,6 +132,13 @@ class C10(Prop):
                     acc.violation(f"parse-raised:{type(exc).__name__}", f"reply with {n} records in {zone} raised {type(exc).__name__}: {exc}", {"records": recs, "reply": reply.hex()})
                     continue
                 self._judge_set(acc, resp.schedules, recs, zone, "direct parse")
+                # a caller may edit what it was handed (days is a plain public set): later parses must not care
+                for sch in resp.schedules:
+                    if isinstance(sch.days, set):
+                        sch.days.clear()
+                        sch.days.add("edited by the caller")
+                    sch.start_time = "99:99"
+                acc.count("returned_schedules_edited_by_caller", len(resp.schedules))
                 if resp.found_schedules != (len(recs) > 0):
                     acc.violation("found-flag-wrong", f"found_schedules={resp.found_schedules} with {len(recs)} records", {})
                 for rec in recs:
